@@ -7,4 +7,5 @@ INVARIANT ReferenceState
 INVARIANT Derivatives
 INVARIANT Jumps
 INVARIANT RefShift
+INVARIANT LockedOnePhase
 CHECK_DEADLOCK FALSE
